@@ -354,8 +354,10 @@ def concurrent_history(ctx, rng, kind, inj):
             cache = dns.resolver.LRUCache(ms)
             model = Model("lru", ms)
         else:
-            cache = dns.resolver.Cache(300.0)
-            model = Model("cache", None, 300.0, clock.now)
+            # half of the histories start with the periodic cleaning pass due, so that it runs inside the concurrent part
+            interval = rng.choice((300.0, 5.0))
+            cache = dns.resolver.Cache(interval)
+            model = Model("cache", None, interval, clock.now)
         answers = {}
         # pre-populate sequentially
         uid = 0
@@ -364,6 +366,14 @@ def concurrent_history(ctx, rng, kind, inj):
             uid += 1
             model.apply(op, clock.now)
             lib_apply(cache, op, answers)
+        if kind != "lru" and interval == 5.0:
+            for _ in range(rng.randint(0, 3)):  # some entries that the pass will have to delete, some it must keep
+                op = ("put", KEYS[rng.randrange(3)], uid, clock.now + rng.choice((1.0, 2.0, 50.0)))
+                uid += 1
+                model.apply(op, clock.now)
+                lib_apply(cache, op, answers)
+            clock.now += 10.0
+            ctx.count("mon.cleaning_pass_due_in_concurrent_part")
         nthreads = rng.randint(2, 4)
         history = []
         plans = []
